@@ -176,6 +176,12 @@ func checkFaithful(c *vt.C, script any, k *compKind, typed reflect.Value, eff ma
 			continue
 		}
 		n := k.byPath[x.key()]
+		if n != nil && n.Kind == kList && x.V.K == "list" {
+			if f := checkList(c, script, k, n, typed, eff, effPrefix, x); f != nil {
+				return f
+			}
+			continue
+		}
 		if n == nil || n.Kind != kLeaf {
 			continue // not a schema leaf (edited replay): nothing to assert
 		}
@@ -266,6 +272,102 @@ func checkFaithful(c *vt.C, script any, k *compKind, typed reflect.Value, eff ma
 		}
 	}
 	return nil
+}
+
+// checkList: a written list REPLACES the default list.  The typed list has
+// exactly the written elements; in each element every written key holds the
+// written value (typed and effective) and every key that was not written is
+// absent or zero — in particular it does not hold what the factory default's
+// element at the same index held.
+func checkList(c *vt.C, script any, k *compKind, n *schemaNode, typed reflect.Value, eff map[string]any, effPrefix []string, x Write) *vt.Finding {
+	where := k.name() + "::" + x.key()
+	lv, ok := lookup(typed, x.P)
+	if !ok || lv.Kind() != reflect.Slice {
+		if len(x.V.E) == 0 {
+			return nil // an empty list may load as nil
+		}
+		return vt.Failf("list/"+where, "%s %v: wrote %s with %d elements, the typed configuration has no list there", k.name(), effPrefix, x.key(), len(x.V.E))
+	}
+	if lv.Len() != len(x.V.E) {
+		return vt.Failf("list-len/"+where, "%s %v: wrote %s with %d elements, the typed list has %d", k.name(), effPrefix, x.key(), len(x.V.E), lv.Len())
+	}
+	var effList reflect.Value
+	if eff != nil {
+		ev, _ := effLookup(eff, append(append([]string{}, effPrefix...), x.P...))
+		effList = reflect.ValueOf(ev)
+		n := 0
+		if effList.IsValid() && effList.Kind() == reflect.Slice {
+			n = effList.Len()
+		}
+		if n != len(x.V.E) {
+			return vt.Failf("list-len-eff/"+where, "%s %v: wrote %s with %d elements, the effective configuration shows %d", k.name(), effPrefix, x.key(), len(x.V.E), n)
+		}
+	}
+	for i, ews := range x.V.E {
+		el := lv.Index(i)
+		var effElem map[string]any
+		if effList.IsValid() && effList.Kind() == reflect.Slice {
+			effElem, _ = effList.Index(i).Interface().(map[string]any)
+		}
+		written := map[string]bool{}
+		for _, ew := range ews {
+			written[ew.key()] = true
+			en := n.Elem.byPath[ew.key()]
+			if en == nil || en.Kind != kLeaf {
+				continue
+			}
+			tv, ok := lookup(el, ew.P)
+			if !ok {
+				return vt.Failf("list-elem-typed/"+where, "%s %v: %s[%d]: wrote %s = %s, the typed element has no value there", k.name(), effPrefix, x.key(), i, ew.key(), ew.V)
+			}
+			if d := checkTyped(tv, ew.V); d != "" {
+				return vt.Failf("list-elem-typed/"+where, "%s %v: %s[%d] (of %d): wrote %s = %s, %s", k.name(), effPrefix, x.key(), i, len(x.V.E), ew.key(), ew.V, d)
+			}
+			if eff != nil {
+				ev, present := effLookup(effElem, ew.P)
+				if d := checkEff(ev, present, tv, ew.V); d != "" {
+					f := vt.Failf("list-elem-eff/"+where, "%s %v: %s[%d]: wrote %s = %s (typed value correct), but %s", k.name(), effPrefix, x.key(), i, ew.key(), ew.V, d)
+					if !c.Soft(f, script) {
+						return f
+					}
+				}
+			}
+		}
+		for _, en := range n.Elem.Nodes {
+			if en.Kind == kStruct || written[en.key()] {
+				continue
+			}
+			if tv, ok := lookup(el, en.Path); ok && !emptyTyped(tv) {
+				return vt.Failf("list-elem-unwritten/"+where, "%s %v: %s[%d] (of %d written elements): key %s was not written but holds %s — a written list replaces the default list, unwritten keys of an element are zero (element written: %s)", k.name(), effPrefix, x.key(), i, len(x.V.E), en.key(), show(tv), writtenKeys(ews))
+			}
+		}
+		// the effective configuration must not show keys of the element that were not written either
+		if effElem != nil {
+			flat := map[string]string{}
+			flatten("", effElem, flat)
+			for fk, fv := range flat {
+				covered := false
+				for wk := range written {
+					if fk == wk || strings.HasPrefix(fk, wk+"::") || strings.HasPrefix(wk, fk+"::") {
+						covered = true
+					}
+				}
+				if !covered && !effEmpty(fv) {
+					return vt.Failf("list-elem-unwritten-eff/"+where, "%s %v: %s[%d]: the effective configuration shows %s = %s, which was not written (element written: %s)", k.name(), effPrefix, x.key(), i, fk, fv, writtenKeys(ews))
+				}
+			}
+		}
+	}
+	return nil
+}
+
+// effEmpty: a %#v-rendered effective value that stands for "nothing".
+func effEmpty(s string) bool {
+	switch s {
+	case "<nil>", `""`, "0", "false", "map[string]interface {}{}", "[]interface {}{}", "[]interface {}(nil)", "interface {}(nil)":
+		return true
+	}
+	return strings.HasSuffix(s, "(nil)") || strings.HasSuffix(s, "{}")
 }
 
 func show(v reflect.Value) string {
@@ -492,6 +594,23 @@ func evaluate(c *vt.C, in Script) (nontrivial bool, key string, f *vt.Finding) {
 		noteOnce(c, "base rejected by validation: "+firstLine(l.valErr.Error()))
 		return nontrivial, key, nil
 	}
+	// the public entry point must agree: a document the provider-level path accepts passes the
+	// load and validation stages of Collector.DryRun as well (DryRun then also builds the pipeline
+	// graph, which may refuse a document for reasons outside C13: "failed to build pipelines").
+	if text, err := render(s.baseDoc()); err == nil {
+		d := dryRun(text)
+		if d.panicV != nil {
+			return true, key, vt.Failf("panic/dryrun", "Collector.DryRun panicked on a valid configuration: %v\n%s", d.panicV, d.stack)
+		}
+		switch {
+		case d.err == nil:
+			c.Class("dryrun:valid-accepted")
+		case strings.HasPrefix(d.err.Error(), "failed to build pipelines"):
+			c.Class("dryrun:valid-refused-by-graph-build")
+		default:
+			return true, key, vt.Failf("entrypoint/dryrun-rejects-valid", "the configuration loads and validates (ConfigProvider.Get + xconfmap.Validate) but Collector.DryRun rejects it before building pipelines: %v", d.err)
+		}
+	}
 	if s.M == nil {
 		c.Class("no-mistake")
 		return nontrivial, key, nil
@@ -532,6 +651,28 @@ func evaluate(c *vt.C, in Script) (nontrivial bool, key string, f *vt.Finding) {
 		c.Class("rejected-at:load")
 	} else {
 		c.Class("rejected-at:validate")
+	}
+	// entry-point independence: what the provider-level path rejects, the public validation entry
+	// points (Collector.DryRun, `validate --config=…`) must reject as well, naming the same entry
+	if vtext, err := render(doc); err == nil {
+		for _, ep := range []struct {
+			name string
+			run  func(string) entryOutcome
+		}{{"dryrun", dryRun}, {"validate-command", validateCommand}} {
+			o := ep.run(vtext)
+			if o.panicV != nil {
+				return true, key, vt.Failf("panic/"+ep.name, "%s panicked on the configuration with one mistake (%s): %v\n%s", ep.name, s.M, o.panicV, o.stack)
+			}
+			if o.err == nil {
+				return true, key, vt.Failf("accepted-by-"+ep.name+"/"+s.M.Kind+"/"+ex.where, "the mistake is rejected by ConfigProvider.Get + xconfmap.Validate (%s) but accepted by %s: %s", firstLine(text), ep.name, s.M)
+			}
+			et := o.err.Error()
+			for _, m := range ex.must {
+				if !strings.Contains(et, m) {
+					return true, key, vt.Failf("unnamed-by-"+ep.name+"/"+s.M.Kind+"/"+ex.where, "%s rejects the mistake without naming %q: mistake %s, error: %s", ep.name, m, s.M, et)
+				}
+			}
+		}
 	}
 	return nontrivial, key, nil
 }
